@@ -1,6 +1,6 @@
 """Per-property configuration: correspondence footprints, the tags that make a step relevant,
 verdict and evidence."""
-import os, json, time, sys
+import os, json, time, sys, re
 from common import *
 
 BLOCKS = {"BLOCK", "FBLOCK"}
@@ -171,7 +171,10 @@ def verdict(prop, tier, seed, t0, R, C, results, write_replay, write_broken, kno
         broken.append("theorem file coq/Properties/%s.v no longer checks: %s" % (prop, (cs or {}).get("error", "missing")))
     if C.get("forbidden"):
         broken.append("forbidden constructs in the development: %s" % C["forbidden"][:3])
-    mm = [m for m in R["mismatches"] if in_footprint(prop, m)]
+    def known_mismatch(m):
+        text = "%s %s" % (m.get("op", ""), m.get("impl", ""))
+        return any(e.get("status") == "open" and e.get("mismatch_regex") and re.search(e["mismatch_regex"], text) for e in known)
+    mm = [m for m in R["mismatches"] if in_footprint(prop, m) and not known_mismatch(m)]
     if mm:
         m0 = mm[0]
         broken.append("correspondence: projection %s of step %s of history %s (%s): model=[%s] impl=[%s]" %
